@@ -499,3 +499,117 @@ Section RunClauses.
       apply wf_prog_snoc; [assumption|]. split; [apply wf_RETURN|]. destruct Hs as [Hx _]. exact Hx.
   Qed.
 End RunClauses.
+
+(* ---------------------------------------------------------------- the fuel always suffices *)
+
+Section Total.
+  Variable table : list builtin.
+  Variable W : Type.
+  Variable buckets : W -> str -> bool.
+  Variable body : str -> list arg -> W -> (value + errclass) * W.
+
+  Notation denote := (denote table W buckets body).
+  Notation denote_stmts := (denote_stmts table W buckets body).
+
+  Lemma typecheck_fuel sig : forall args, typecheck sig args <> OutOfFuel.
+  Proof.
+    induction sig as [|k sig IH]; intros args; [discriminate|]. destruct args as [|a args]; [discriminate|].
+    cbn [typecheck]. destruct k; try apply IH. destruct (isinstance a t); [apply IH|discriminate].
+  Qed.
+
+  Lemma call_body_fuel n args w : fst (call_body W body n args w) <> OutOfFuel.
+  Proof. unfold call_body. destruct (body n args w) as [[v|c] w1]; discriminate. Qed.
+
+  Lemma run_body_fuel b args w : fst (run_body W buckets body b args w) <> OutOfFuel.
+  Proof.
+    unfold run_body. destruct (b_body b); try discriminate; try apply call_body_fuel.
+    destruct (vals_of_args args) as [|[| | | | | |] ?]; try apply call_body_fuel.
+    destruct (buckets w s); [apply call_body_fuel|discriminate].
+  Qed.
+
+  Lemma call_builtin_fuel b vals w : fst (call_builtin W buckets body b vals w) <> OutOfFuel.
+  Proof.
+    unfold call_builtin, bindM, lift, fail.
+    set (args := (if existsb is_pdatastore (b_sig b) then [ADatastore] else []) ++
+                 (if existsb is_pnamespace (b_sig b) then [ANamespace] else []) ++ map AVal vals).
+    pose proof (typecheck_fuel (b_sig b) args) as Ht.
+    destruct (typecheck (b_sig b) args) as [u|c|]; [|discriminate|congruence].
+    destruct (negb (arity_ok (b_sig b) (length args))); [discriminate|].
+    pose proof (run_body_fuel b args w) as Hr.
+    destruct (run_body W buckets body b args w) as [[v|c|] w1]; [discriminate| |exfalso; apply Hr; reflexivity].
+    destruct c; discriminate.
+  Qed.
+
+  Lemma denote_seq_fuel ns l : Forall (fun t => forall w, fst (denote ns t w) <> OutOfFuel) l ->
+    forall w, fst (denote_seq W (denote ns) l w) <> OutOfFuel.
+  Proof.
+    induction l as [|a r IH]; intros H w; [discriminate|]. inversion H as [|? ? Ha Hr]; subst.
+    cbn [denote_seq]. unfold bindM, ret. specialize (Ha w).
+    destruct (denote ns a w) as [[v|c|] w1]; [|discriminate|exfalso; apply Ha; reflexivity].
+    specialize (IH Hr w1). destruct (denote_seq W (denote ns) r w1) as [[vs|c|] w2]; [discriminate|discriminate|exfalso; apply IH; reflexivity].
+  Qed.
+
+  Lemma denote_entries_fuel ns (d : list ((Z * str) * term)) :
+    Forall (fun e => forall w, fst (denote ns (snd e) w) <> OutOfFuel) d ->
+    forall w, fst (denote_entries W (denote ns) d w) <> OutOfFuel.
+  Proof.
+    induction d as [|a r IH]; intros H w; [discriminate|]. inversion H as [|? ? Ha Hr]; subst.
+    cbn [denote_entries]. unfold bindM, ret. specialize (Ha w).
+    destruct (denote ns (snd a) w) as [[v|c|] w1]; [|discriminate|exfalso; apply Ha; reflexivity].
+    specialize (IH Hr w1). destruct (denote_entries W (denote ns) r w1) as [[vs|c|] w2]; [discriminate|discriminate|exfalso; apply IH; reflexivity].
+  Qed.
+
+  Lemma denote_fuel ns t : forall w, fst (denote ns t w) <> OutOfFuel.
+  Proof.
+    induction t as [ds|q s|n|n args IH|l IH|d IH] using term_ind2; intro w; cbn [QueryRef.denote].
+    - discriminate.
+    - discriminate.
+    - destruct (dict_get ns n); discriminate.
+    - destruct (find_builtin table n) as [b|]; [|discriminate]. unfold bindM.
+      pose proof (denote_seq_fuel ns args IH w) as Hs.
+      destruct (denote_seq W (denote ns) args w) as [[vs|c|] w1]; [apply call_builtin_fuel|discriminate|exfalso; apply Hs; reflexivity].
+    - unfold bindM, ret. pose proof (denote_seq_fuel ns l IH w) as Hs.
+      destruct (denote_seq W (denote ns) l w) as [[vs|c|] w1]; [discriminate|discriminate|exfalso; apply Hs; reflexivity].
+    - unfold bindM, ret. pose proof (denote_entries_fuel ns d IH w) as Hs.
+      destruct (denote_entries W (denote ns) d w) as [[vs|c|] w1]; [discriminate|discriminate|exfalso; apply Hs; reflexivity].
+  Qed.
+
+  Lemma denote_stmts_fuel pg : forall ns w, fst (denote_stmts pg ns w) <> OutOfFuel.
+  Proof.
+    induction pg as [|[n e] r IH]; intros ns w; cbn [QueryRef.denote_stmts]; [discriminate|].
+    unfold bindM. pose proof (denote_fuel ns e w) as He.
+    destruct (denote ns e w) as [[v|c|] w1]; [apply IH|discriminate|exfalso; apply He; reflexivity].
+  Qed.
+
+  Lemma denote_prog_fuel name st en pg w :
+    fst (denote_prog table W buckets body name st en pg w) <> OutOfFuel.
+  Proof.
+    unfold denote_prog, bindM. pose proof (denote_stmts_fuel pg (initial_namespace name st en) w) as Hs.
+    destruct (denote_stmts pg (initial_namespace name st en) w) as [[ns|c|] w1]; [|discriminate|exfalso; apply Hs; reflexivity].
+    destruct (dict_get ns s_RETURN); discriminate.
+  Qed.
+
+  (* query() on a printed program never runs out of the fuel the model hands out *)
+  Theorem run_print_fuel md lay name st en pg w : wf_layout lay -> wf_prog md pg ->
+    fst (run table W buckets body md name st en (print lay pg) w) <> OutOfFuel.
+  Proof.
+    intros Hlay Hw. rewrite (run_denote table W buckets body md lay Hlay name st en pg Hw w). apply denote_prog_fuel.
+  Qed.
+End Total.
+
+(* ---------------------------------------------------------------- the body calls, made visible *)
+
+(* Any world can be extended by a log of the body calls (name and actual arguments, in the order in
+   which they happen); run_denote at this world says that query() and the reference evaluator make
+   the same calls in the same order. *)
+Definition call_log := list (str * list arg).
+Definition log_body {W} (body : str -> list arg -> W -> (value + errclass) * W)
+    (n : str) (args : list arg) (wl : W * call_log) : (value + errclass) * (W * call_log) :=
+  let '(r, w') := body n args (fst wl) in (r, (w', snd wl ++ [(n, args)])).
+Definition log_buckets {W} (buckets : W -> str -> bool) (wl : W * call_log) : str -> bool := buckets (fst wl).
+
+Theorem run_same_calls table W buckets body md lay name st en pg w :
+  wf_layout lay -> wf_prog md pg ->
+  run table (W * call_log) (log_buckets buckets) (log_body body) md name st en (print lay pg) (w, []) =
+  denote_prog table (W * call_log) (log_buckets buckets) (log_body body) name st en pg (w, []).
+Proof. intros Hlay Hw. apply run_denote; assumption. Qed.
